@@ -860,6 +860,108 @@ def check_desc_type(chk, F):
             chk.fail(rid, "unanalysable:" + name, "unanalysable: %s" % e, kind="unanalysable")
 
 
+# ---- R16.10 looking an output script up among the derived descriptors; the derivation glue ------------------------------------
+
+def check_spk_search(chk, F):
+    import itertools
+    from ..interp import Machine, Adt, PyVec, Panic, ok, err, some, NONE
+    from ..builtins import deref
+    rid = "R16.10"
+    chk.rule(rid, "Descriptor::find_derivation_index_for_spk returns the first index of the range whose derived descriptor pays "
+                  "to the given script, with that descriptor; None when no index of the range does; index 0 / None for a "
+                  "descriptor without wildcard by comparing its own script; a derivation error is passed on (decision table "
+                  "over wildcard x range x matching indices x failing index); DerivationResult::{into_result, or_fallback} and "
+                  "Descriptor::<DescriptorPublicKey>::derived_descriptor / TryFrom are the compositions their documentation "
+                  "states")
+    D = "Descriptor::<descriptor::key::DescriptorPublicKey>::"
+    try:
+        find = [q for q in F.fns if q.endswith(D + "find_derivation_index_for_spk")][0]
+        hasw = [q for q in F.fns if q.endswith(D + "has_wildcard")][0]
+        intod = [q for q in F.fns if q.endswith(D + "into_definite")][0]
+        dai = [q for q in F.fns if q.endswith(D + "derive_at_index")][0]
+        adi = [q for q in F.fns if q.endswith(D + "at_derivation_index")][0]
+        dd_pub = [q for q in F.fns if q.endswith(D + "derived_descriptor")][0]
+        dd_def = [q for q in F.fns if q.endswith("Descriptor::<descriptor::key::DefiniteDescriptorKey>::derived_descriptor")][0]
+        spk = [q for q in F.fns if q.endswith("Descriptor::<Pk>::script_pubkey")][0]
+        into_result = [q for q in F.fns if q.endswith("DerivationResult::into_result")][0]
+        or_fallback = [q for q in F.fns if q.endswith("DerivationResult::or_fallback")][0]
+        tryfrom = [it["path"] for i in F.impls if (i["trait"] or "").startswith("std::convert::TryFrom") and i["self_adt"] == "descriptor::Descriptor"
+                   for it in i["items"] if it["name"] == "try_from" and it["path"] in F.bodies]
+        if len(tryfrom) != 1:
+            raise IndexError("TryFrom")
+    except IndexError as e:
+        chk.fail(rid, "anchor", "find_derivation_index_for_spk and its collaborators not found (%s)" % e, kind="unanalysable")
+        return
+    chk.saw(find, dd_pub, into_result, or_fallback, tryfrom[0])
+    DR = "descriptor::DerivationResult"
+    n = 0
+    try:
+        for wild, (lo, hi), matching, failing in itertools.product((True, False), ((0, 0), (0, 4), (2, 6), (5, 6)),
+                                                                   ((), (0,), (3,), (2, 5), (1, 2, 3)), (None, 0, 2, 5)):
+            calls = []
+            hooks = {
+                hasw: lambda m_, a, c: wild,
+                intod: lambda m_, a, c: err(Term("into-definite-error")) if failing == 0 else ok(("definite", "self")),
+                dai: lambda m_, a, c: (calls.append(deref(a[1])),
+                                       Adt(DR, "Error", {"0": Term("derive-error", deref(a[1]))}) if deref(a[1]) == failing
+                                       else Adt(DR, "Ok", {"0": ("definite", deref(a[1]))}))[1],
+                dd_def: lambda m_, a, c: ("concrete", deref(a[0])[1]),
+                spk: lambda m_, a, c: "TARGET" if (deref(a[0])[1] in matching or (deref(a[0])[1] == "self" and 0 in matching)) else ("other", deref(a[0])[1]),
+            }
+            m = Machine(F, strict=True, hooks=hooks)
+            rng = Adt("std::ops::Range", "Range", {"start": lo, "end": hi})
+            r = m.call_callee({"def": find, "resolved": find, "name": "find_derivation_index_for_spk", "targs": ["C"]},
+                              [Term("desc"), Term("secp"), "TARGET", rng])
+            n += 1
+            key = "find|wildcard=%s|range=%d..%d|matching=%s|failing=%s" % (wild, lo, hi, ",".join(map(str, matching)) or "-", failing)
+            if not wild:
+                want = "Err" if failing == 0 else (("Some", 0, "self") if 0 in matching else "None")
+            else:
+                want = "None"
+                for i in range(lo, hi):
+                    if i == failing:
+                        want = "Err"
+                        break
+                    if i in matching:
+                        want = ("Some", i, i)
+                        break
+            if r.variant == "Err":
+                got = "Err"
+            else:
+                o = deref(r.fields["0"])
+                got = "None" if o.variant == "None" else ("Some", deref(o.fields["0"])[0], deref(deref(o.fields["0"])[1])[1])
+            chk.obligation(rid, got == want, key, "result %r (%s), expected %r" % (got, repr(r)[:100], want), where="src/descriptor/mod.rs")
+        # DerivationResult conversions
+        m = Machine(F, strict=True, hooks={intod: lambda m_, a, c: ok(("definite-of", deref(a[0])))})
+        for variant, payload, want_ir, want_fb in (("Ok", "d", "Ok:d", "Ok:d"), ("WithoutWildcard", "orig", "Err:NoWildcard", "Ok:definite-of"),
+                                                   ("Error", Term("E"), "Err:E", "Err:E")):
+            for fn_, want in ((into_result, want_ir), (or_fallback, want_fb)):
+                r = m.call_path(fn_, [Adt(DR, variant, {"0": payload})])
+                n += 1
+                got = "%s:%s" % (r.variant, repr(deref(r.fields["0"])))
+                chk.obligation(rid, got.startswith(want.split(":")[0]) and want.split(":")[1] in got, "DerivationResult|%s|%s" % (variant, fn_.rsplit("::", 1)[1]),
+                               "%s of %s is %s, expected %s" % (fn_.rsplit("::", 1)[1], variant, got, want), where="src/descriptor/mod.rs")
+        # derived_descriptor(secp, i) = at_derivation_index(i)?.derived_descriptor(secp); TryFrom = into_definite
+        for outcome in ("ok", "err"):
+            m = Machine(F, strict=True, hooks={
+                adi: lambda m_, a, c: ok(("definite", deref(a[1]))) if outcome == "ok" else err(Term("E", deref(a[1]))),
+                dd_def: lambda m_, a, c: ("concrete", deref(a[0])[1]),
+                intod: lambda m_, a, c: ok(("definite-of", deref(a[0]))) if outcome == "ok" else err(Term("E"))})
+            r = m.call_callee({"def": dd_pub, "resolved": dd_pub, "name": "derived_descriptor", "targs": ["C"]}, [Term("desc"), Term("secp"), 11])
+            n += 1
+            good = (r.variant == "Ok" and deref(r.fields["0"]) == ("concrete", 11)) if outcome == "ok" else (r.variant == "Err" and "E" in repr(r))
+            chk.obligation(rid, good, "derived_descriptor|" + outcome, "derived_descriptor(secp, 11) is %r" % (r,), where="src/descriptor/mod.rs")
+            r = m.call_path(tryfrom[0], ["DESC"])
+            n += 1
+            good = (r.variant == "Ok" and deref(r.fields["0"]) == ("definite-of", "DESC")) if outcome == "ok" else r.variant == "Err"
+            chk.obligation(rid, good, "try_from|" + outcome, "TryFrom gives %r" % (r,), where="src/descriptor/mod.rs")
+    except Unsupported as e:
+        chk.fail(rid, "unanalysable", "unanalysable: %s" % e, where=e.where, kind="unanalysable")
+    except Panic as e:
+        chk.fail(rid, "panic", "panic: %s" % e, where="src/descriptor/mod.rs")
+    chk.floor(rid, "cases", n, 170)
+
+
 def run(chk):
     F = chk.facts()
     chk.explanation = (
@@ -882,3 +984,4 @@ def run(chk):
     chk.guard("R16.7", "tr-output", check_tr_output, chk, F)
     chk.guard("R16.8", "secret-keys", check_secret_keys, chk, F)
     chk.guard("R16.9", "desc-type", check_desc_type, chk, F)
+    chk.guard("R16.10", "spk-search", check_spk_search, chk, F)
